@@ -123,6 +123,12 @@ def main(argv=None):
     for sh in p13.shapes(chk.tier):
         tasks.append({'module': M, 'fn': 'shared_task', 'shared_module': 'props.c13', 'shared_fn': 'vc_task', 'name': f'_begin_betting/n{sh.n}h{sh.H}',
                       'shape': sh.as_dict(), 'timeout_ms': 300000 if chk.tier == 'thorough' else 30000, 'weight': sh.n * sh.H})
+    import props.c10 as p10
+    for sh in p10.shapes(chk.tier):
+        # the street template of the variant is followed when a street is dealt (incl. the stud fallback to a community card)
+        tasks.append({'module': M, 'fn': 'shared_task', 'shared_module': 'props.c10', 'shared_fn': 'vc_task', 'name': f'begin_dealing/n{sh.n}h{sh.H}b{sh.B}',
+                      'contract': 'begin_dealing', 'shape': sh.as_dict(), 'timeout_ms': 120000 if chk.tier == 'thorough' else 40000,
+                      'weight': sh.n * sh.H})
     for sh in p02.shapes('quick', 'begin_chips_pushing'):
         tasks.append({'module': M, 'fn': 'shared_task', 'shared_module': 'props.c02', 'shared_fn': 'vc_task',
                       'name': f'begin_chips_pushing/n{sh.n}b{sh.B}t{sh.T}', 'contract': 'begin_chips_pushing', 'shape': sh.as_dict(),
